@@ -14,10 +14,13 @@ Record Inv (s : st) : Prop := mkInv {
   inv_pending : sd_pending s = true -> done s = true /\ (open_count s > 0)%nat
 }.
 
-Lemma inv_init : Inv init.
+Lemma inv_init_e e : Inv (init_e e).
 Proof.
   constructor; simpl; auto; try discriminate.
 Qed.
+
+Lemma inv_init : Inv init.
+Proof. exact (inv_init_e false). Qed.
 
 Lemma next_delay_ok d : d = 0 \/ delay_ok d -> delay_ok (next_delay d).
 Proof.
@@ -165,10 +168,39 @@ Proof.
   rewrite run_st_cons. apply IH. apply step_inv. exact H.
 Qed.
 
-Definition reachable (s : st) : Prop := exists l, s = run_st init l.
+(* reachable from a fresh server, whether or not its listener's Close fails *)
+Definition reachable (s : st) : Prop := exists e l, s = run_st (init_e e) l.
 
 Lemma reachable_inv s : reachable s -> Inv s.
-Proof. intros [l ->]. apply run_inv. apply inv_init. Qed.
+Proof. intros [e [l ->]]. apply run_inv. apply inv_init_e. Qed.
+
+(* ---- the listener's fault is a parameter: no operation changes it ---- *)
+
+Lemma step_lis_err s o : lis_err (fst (step s o)) = lis_err s.
+Proof.
+  destruct o as [[| |] | j | | | k |]; simpl;
+    try (destruct (serving s && negb (lis_closed s)));
+    try (destruct (done s));
+    try (destruct (nth_error (conns s) j) as [[| | |]|]);
+    try (destruct (nth_error (conns s) k) as [[| | |]|]);
+    try (destruct (done s));
+    try (destruct (sd_pending s)); simpl;
+    try (destruct (_ =? _)%nat); simpl;
+    try (unfold stop_serve; destruct (serving s)); simpl;
+    try (destruct (_ =? _)%nat); simpl; auto.
+Qed.
+
+Lemma step_ok_ret s o : ok_ret (fst (step s o)) = ok_ret s.
+Proof. unfold ok_ret. rewrite step_lis_err. reflexivity. Qed.
+
+Lemma run_lis_err s l : lis_err (run_st s l) = lis_err s.
+Proof.
+  revert s. induction l as [|o l IH]; intros s; [reflexivity|].
+  rewrite run_st_cons, IH. apply step_lis_err.
+Qed.
+
+Lemma run_ok_ret s l : ok_ret (run_st s l) = ok_ret s.
+Proof. unfold ok_ret. rewrite run_lis_err. reflexivity. Qed.
 
 (* ---- done is closed once and for all ---- *)
 
@@ -193,7 +225,7 @@ Qed.
 Theorem close_first s :
   Inv s -> done s = false ->
   let s' := fst (step s OClose) in
-  snd (step s OClose) = BRet RNil /\
+  snd (step s OClose) = BRet (ok_ret s) /\
   done s' = true /\ lis_closed s' = true /\
   serving s' = false /\
   (serving s = true -> serve_ret s' = Some RNil) /\
@@ -228,7 +260,7 @@ Theorem shutdown_first s :
   done s' = true /\ lis_closed s' = true /\ serving s' = false /\
   (serving s = true -> serve_ret s' = Some RNil) /\
   conns s' = conns s /\
-  (open_count s = 0%nat -> snd (step s OShutdown) = BRet RNil /\ sd_pending s' = false) /\
+  (open_count s = 0%nat -> snd (step s OShutdown) = BRet (ok_ret s) /\ sd_pending s' = false) /\
   ((open_count s > 0)%nat -> snd (step s OShutdown) = BPending /\ sd_pending s' = true).
 Proof.
   intros _ Hd. simpl. rewrite Hd. unfold stop_serve.
@@ -248,7 +280,7 @@ Theorem shutdown_pending_step s o :
       match nth_error (conns s) k with
       | Some COpen =>
           if (open_count s =? 1)%nat
-          then b = BShutdownRet RNil /\ sd_pending s' = false /\ open_count s' = 0%nat
+          then b = BShutdownRet (ok_ret s) /\ sd_pending s' = false /\ open_count s' = 0%nat
           else b = BNone /\ sd_pending s' = true /\ S (open_count s') = open_count s
       | _ => b = BSkip /\ s' = s
       end
@@ -260,7 +292,7 @@ Theorem shutdown_pending_step s o :
       | Some CSpawned =>
           nth_error (conns s') k = Some CClosedByServer /\
           if (open_count s =? 1)%nat
-          then b = BShutdownRet RNil /\ sd_pending s' = false /\ open_count s' = 0%nat
+          then b = BShutdownRet (ok_ret s) /\ sd_pending s' = false /\ open_count s' = 0%nat
           else b = BNone /\ sd_pending s' = true /\ S (open_count s') = open_count s
       | _ => b = BSkip /\ s' = s
       end
@@ -353,8 +385,8 @@ Theorem shutdown_waits s l :
   let s' := run_st s l in
   let bs := snd (run s l) in
   ~ In (BShutdownRet RCtxErr) bs /\
-  ((sd_pending s' = true /\ (open_count s' > 0)%nat /\ ~ In (BShutdownRet RNil) bs) \/
-   (sd_pending s' = false /\ open_count s' = 0%nat /\ In (BShutdownRet RNil) bs)).
+  ((sd_pending s' = true /\ (open_count s' > 0)%nat /\ ~ In (BShutdownRet (ok_ret s)) bs) \/
+   (sd_pending s' = false /\ open_count s' = 0%nat /\ In (BShutdownRet (ok_ret s)) bs)).
 Proof.
   revert s. induction l as [|o l IH]; intros s HI Hp He.
   - simpl. split; [intros []|]. left. destruct (inv_pending s HI Hp) as [_ Ho]. auto.
@@ -364,13 +396,13 @@ Proof.
     assert (Hd' : done (fst (step s o)) = true).
     { apply step_done. exact (proj1 (inv_pending s HI Hp)). }
     (* the three shapes a step can have while Shutdown is blocked *)
-    assert (Hsame : snd (step s o) <> BShutdownRet RCtxErr -> snd (step s o) <> BShutdownRet RNil ->
+    assert (Hsame : snd (step s o) <> BShutdownRet RCtxErr -> snd (step s o) <> BShutdownRet (ok_ret s) ->
                     fst (step s o) = s -> has_expire l = false ->
       ~ In (BShutdownRet RCtxErr) (snd (step s o) :: snd (run (fst (step s o)) l)) /\
       ((sd_pending (run_st (fst (step s o)) l) = true /\ (open_count (run_st (fst (step s o)) l) > 0)%nat /\
-        ~ In (BShutdownRet RNil) (snd (step s o) :: snd (run (fst (step s o)) l))) \/
+        ~ In (BShutdownRet (ok_ret s)) (snd (step s o) :: snd (run (fst (step s o)) l))) \/
        (sd_pending (run_st (fst (step s o)) l) = false /\ open_count (run_st (fst (step s o)) l) = 0%nat /\
-        In (BShutdownRet RNil) (snd (step s o) :: snd (run (fst (step s o)) l))))).
+        In (BShutdownRet (ok_ret s)) (snd (step s o) :: snd (run (fst (step s o)) l))))).
     { intros Hb1 Hb2 Hs He'. rewrite Hs.
       destruct (IH s HI Hp He') as [N1 N2]. split.
       - intros [F | F]; [exact (Hb1 F) | exact (N1 F)].
@@ -380,26 +412,26 @@ Proof.
     assert (Hgo : snd (step s o) = BNone -> sd_pending (fst (step s o)) = true -> has_expire l = false ->
       ~ In (BShutdownRet RCtxErr) (snd (step s o) :: snd (run (fst (step s o)) l)) /\
       ((sd_pending (run_st (fst (step s o)) l) = true /\ (open_count (run_st (fst (step s o)) l) > 0)%nat /\
-        ~ In (BShutdownRet RNil) (snd (step s o) :: snd (run (fst (step s o)) l))) \/
+        ~ In (BShutdownRet (ok_ret s)) (snd (step s o) :: snd (run (fst (step s o)) l))) \/
        (sd_pending (run_st (fst (step s o)) l) = false /\ open_count (run_st (fst (step s o)) l) = 0%nat /\
-        In (BShutdownRet RNil) (snd (step s o) :: snd (run (fst (step s o)) l))))).
+        In (BShutdownRet (ok_ret s)) (snd (step s o) :: snd (run (fst (step s o)) l))))).
     { intros Hb Hs He'. rewrite Hb.
-      destruct (IH _ HI' Hs He') as [N1 N2]. split.
+      destruct (IH _ HI' Hs He') as [N1 N2]. rewrite step_ok_ret in N2. split.
       - intros [F | F]; [discriminate F | exact (N1 F)].
       - destruct N2 as [(A & B & C) | (A & B & C)]; [left | right]; repeat split; auto.
         + intros [F | F]; [discriminate F | exact (C F)].
         + right. exact C. }
-    assert (Hret : snd (step s o) = BShutdownRet RNil -> sd_pending (fst (step s o)) = false ->
+    assert (Hret : snd (step s o) = BShutdownRet (ok_ret s) -> sd_pending (fst (step s o)) = false ->
                    open_count (fst (step s o)) = 0%nat -> has_expire l = false ->
       ~ In (BShutdownRet RCtxErr) (snd (step s o) :: snd (run (fst (step s o)) l)) /\
       ((sd_pending (run_st (fst (step s o)) l) = true /\ (open_count (run_st (fst (step s o)) l) > 0)%nat /\
-        ~ In (BShutdownRet RNil) (snd (step s o) :: snd (run (fst (step s o)) l))) \/
+        ~ In (BShutdownRet (ok_ret s)) (snd (step s o) :: snd (run (fst (step s o)) l))) \/
        (sd_pending (run_st (fst (step s o)) l) = false /\ open_count (run_st (fst (step s o)) l) = 0%nat /\
-        In (BShutdownRet RNil) (snd (step s o) :: snd (run (fst (step s o)) l))))).
+        In (BShutdownRet (ok_ret s)) (snd (step s o) :: snd (run (fst (step s o)) l))))).
     { intros Hb Hs Ho He'. rewrite Hb.
       destruct (shutdown_returned_rest l _ HI' Hd' Hs Ho He') as (Q1 & Q2 & Q3).
       split.
-      - intros [F | F]; [discriminate F | exact (Q3 _ F)].
+      - intros [F | F]; [unfold ok_ret in F; destruct (lis_err s); discriminate F | exact (Q3 _ F)].
       - right. repeat split; auto. left. reflexivity. }
     destruct o as [r | j | | | k |]; simpl in He; try discriminate He.
     + destruct HS as [Hb Hs]. apply Hsame; auto; rewrite Hb; discriminate.
@@ -473,7 +505,7 @@ Proof.
     + (* a connection *)
       assert (E : step s (OAccept AConn) =
                   (mkSt true (serve_ret s) (done s) (lis_closed s) (delay s) (sleeps s)
-                        (conns s ++ [CSpawned]) (sd_pending s), BAccepted)).
+                        (conns s ++ [CSpawned]) (sd_pending s) (lis_err s), BAccepted)).
       { simpl. rewrite Hs, Hlc. reflexivity. }
       assert (HI' := step_inv s (OAccept AConn) HI). rewrite E in *. cbn [fst snd] in *.
       destruct (IH _ HI' eq_refl Hl) as (A & B & C & D & F). cbn [serve_ret sleeps delay] in *.
@@ -482,7 +514,7 @@ Proof.
     + (* a temporary error *)
       assert (E : step s (OAccept ATemp) =
                   (mkSt true (serve_ret s) (done s) (lis_closed s) (next_delay (delay s))
-                        (sleeps s ++ [next_delay (delay s)]) (conns s) (sd_pending s),
+                        (sleeps s ++ [next_delay (delay s)]) (conns s) (sd_pending s) (lis_err s),
                    BDelay (next_delay (delay s)))).
       { simpl. rewrite Hs, Hlc, Hd. reflexivity. }
       assert (HI' := step_inv s (OAccept ATemp) HI). rewrite E in *. cbn [fst snd] in *.
@@ -550,7 +582,7 @@ Qed.
 Theorem C20_close_once_lemma s :
   reachable s -> done s = false ->
   let s' := fst (step s OClose) in
-  snd (step s OClose) = BRet RNil /\
+  snd (step s OClose) = BRet (ok_ret s) /\
   serving s' = false /\
   (serving s = true -> serve_ret s' = Some RNil) /\
   conns s' = close_all (conns s) /\ Forall (fun c => c <> COpen) (conns s') /\
@@ -571,7 +603,7 @@ Theorem C20_shutdown_lemma s :
   conns s' = conns s /\
   (forall l r, snd (step (run_st s' l) (OAccept r)) = BSkip) /\
   (* no active connection: returns nil at once *)
-  (open_count s = 0%nat -> snd (step s OShutdown) = BRet RNil) /\
+  (open_count s = 0%nat -> snd (step s OShutdown) = BRet (ok_ret s)) /\
   (* otherwise it blocks; it returns ctx.Err() if the context expires first ... *)
   ((open_count s > 0)%nat ->
    snd (step s OShutdown) = BPending /\
@@ -581,7 +613,7 @@ Theorem C20_shutdown_lemma s :
        snd (step s'' OExpire) = BShutdownRet RCtxErr) \/
    (* ... and nil as soon as the active connections have finished *)
       (sd_pending s'' = false /\ open_count s'' = 0%nat /\
-       In (BShutdownRet RNil) (snd (run s' l)) /\
+       In (BShutdownRet (ok_ret s)) (snd (run s' l)) /\
        ~ In (BShutdownRet RCtxErr) (snd (run s' l))))) /\
   (* a subsequent Close or Shutdown reports that the server is closed *)
   (forall l o, (o = OClose \/ o = OShutdown) ->
@@ -600,7 +632,8 @@ Proof.
   split.
   { intro H0. split; [exact (proj1 (G H0))|].
     intros l He s''. destruct (G H0) as [_ Hp].
-    destruct (shutdown_waits s' l HI' Hp He) as [N1 [(P & Q & R) | (P & Q & R)]].
+    assert (Hok : ok_ret s' = ok_ret s) by apply step_ok_ret.
+    destruct (shutdown_waits s' l HI' Hp He) as [N1 [(P & Q & R) | (P & Q & R)]]; rewrite Hok in R.
     - left. repeat split; auto. subst s''. simpl. rewrite P. reflexivity.
     - right. repeat split; auto. }
   intros l o Ho. rewrite (second_call s' l o A Ho). reflexivity.
@@ -826,8 +859,8 @@ Qed.
        both stay ended;
    (4) once every handler spawned before Close has run, nothing is open
        (no handler goroutine is left: s.wg is at zero). *)
-Theorem C20_close_ends_every_connection_lemma l1 l2 :
-  let s := run_st init l1 in
+Theorem C20_close_ends_every_connection_lemma e l1 l2 :
+  let s := run_st (init_e e) l1 in
   done s = false ->
   let s' := run_st (fst (step s OClose)) l2 in
   List.length (conns s') = List.length (conns s) /\
@@ -839,7 +872,7 @@ Theorem C20_close_ends_every_connection_lemma l1 l2 :
    open_count s' = 0%nat).
 Proof.
   intros s Hd s'.
-  assert (HI : Inv s) by (apply run_inv; apply inv_init).
+  assert (HI : Inv s) by (apply run_inv; apply inv_init_e).
   destruct (close_first s HI Hd) as (_ & Hd1 & _ & _ & _ & _ & Hcs & Hno).
   set (s1 := fst (step s OClose)) in *.
   assert (HI1 : Inv s1) by (apply step_inv; exact HI).
@@ -895,3 +928,197 @@ Example close_ends_every_connection_example :
   conns (run_st (fst (step (run_st init l1) OClose)) [ORegister 3; OFinish 0; OAccept AConn])
   = [CClosedByServer; CSpawned; CClosedByServer; CClosedByServer].
 Proof. repeat split. Qed.
+
+(* ---- a listener whose Close fails changes nothing but the returned error ----
+
+   Server.Close / Shutdown remember the first error a listener's Close
+   returns, carry on, and return it at the end.  So the run of a server whose
+   listener fails to close is, operation for operation, the run of the same
+   server with a listener that closes cleanly: the same states (Serve
+   returns, the same connections are closed by the server at the same
+   moments, the same Shutdown blocks and is released at the same operation)
+   and the same observations, except that the nil of the first Close /
+   Shutdown - returned at once or when the blocked call is released - is the
+   listener's error. *)
+
+Definition set_err (e : bool) (s : st) : st :=
+  mkSt (serving s) (serve_ret s) (done s) (lis_closed s) (delay s) (sleeps s) (conns s)
+       (sd_pending s) e.
+
+Definition mark_obs (b : obs) : obs :=
+  match b with
+  | BRet RNil => BRet RListenerErr
+  | BShutdownRet RNil => BShutdownRet RListenerErr
+  | b => b
+  end.
+
+Lemma set_err_same s : set_err (lis_err s) s = s.
+Proof. destruct s; reflexivity. Qed.
+
+Lemma step_set_err s o :
+  lis_err s = false ->
+  step (set_err true s) o = (set_err true (fst (step s o)), mark_obs (snd (step s o))).
+Proof.
+  intro He. destruct s as [sv sr dn lc dl sl cs sp le]. cbn in He. subst le.
+  unfold step, set_err, ok_ret, stop_serve, open_count.
+  cbn [serving serve_ret done lis_closed delay sleeps conns sd_pending lis_err].
+  destruct o as [[| |] | j | | | k |].
+  - destruct (sv && negb lc); reflexivity.
+  - destruct (sv && negb lc); [|reflexivity].
+    destruct dn; reflexivity.
+  - destruct (sv && negb lc); [|reflexivity].
+    destruct dn; reflexivity.
+  - destruct (nth_error cs j) as [[| | |]|]; try reflexivity.
+    destruct dn; [|reflexivity].
+    destruct sp; cbn [andb]; [|reflexivity].
+    destruct (_ =? _)%nat; reflexivity.
+  - destruct dn; [reflexivity|]. destruct sv; reflexivity.
+  - destruct dn; [reflexivity|].
+    destruct sv; destruct (_ =? _)%nat; reflexivity.
+  - destruct (nth_error cs k) as [[| | |]|]; try reflexivity.
+    destruct sp; cbn [andb]; [|reflexivity].
+    destruct (_ =? _)%nat; reflexivity.
+  - destruct sp; reflexivity.
+Qed.
+
+Theorem listener_error_changes_only_ret l : forall s,
+  lis_err s = false ->
+  run (set_err true s) l = (set_err true (run_st s l), map mark_obs (snd (run s l))).
+Proof.
+  induction l as [|o l IH]; intros s He; [reflexivity|].
+  rewrite run_st_cons. rewrite (run_cons s). cbn [snd map].
+  rewrite run_cons, (step_set_err s o He). cbn [fst snd].
+  rewrite (IH (fst (step s o))) by (rewrite step_lis_err; exact He).
+  reflexivity.
+Qed.
+
+(* a server that runs cleanly never reports a listener error *)
+Lemma no_listener_error_step s o :
+  lis_err s = false ->
+  snd (step s o) <> BRet RListenerErr /\ snd (step s o) <> BShutdownRet RListenerErr.
+Proof.
+  intro He. unfold step, ok_ret, stop_serve. rewrite He.
+  destruct o as [[| |] | j | | | k |];
+    try (destruct (serving s && negb (lis_closed s)));
+    try (destruct (nth_error (conns s) j) as [[| | |]|]);
+    try (destruct (nth_error (conns s) k) as [[| | |]|]);
+    try (destruct (done s));
+    try (destruct (serving s));
+    try (destruct (sd_pending s)); cbn [andb];
+    try (destruct (_ =? _)%nat); cbn [snd]; split; discriminate.
+Qed.
+
+(* The statement for C20: for EVERY operation sequence from a fresh server,
+   with a listener whose Close fails
+   (1) the state is the one reached with a clean listener - Serve has
+       returned the same, the same connections have been ended by the server,
+       as many are active, a Shutdown call blocks iff it blocks there;
+   (2) the observations are those of the clean run with nil replaced by the
+       listener's error in what Close / Shutdown return;
+   in particular Close still ends every connection and Shutdown still waits
+   for the active connections (C20_close_ends_every_connection_lemma,
+   C20_shutdown_lemma hold for both values of the parameter). *)
+Theorem C20_listener_close_error_lemma l :
+  let sf := run_st (init_e true) l in
+  let s := run_st init l in
+  sf = set_err true s /\
+  serving sf = serving s /\ serve_ret sf = serve_ret s /\ done sf = done s /\
+  conns sf = conns s /\ open_count sf = open_count s /\ sd_pending sf = sd_pending s /\
+  snd (run (init_e true) l) = map mark_obs (snd (run init l)) /\
+  ~ In (BRet RListenerErr) (snd (run init l)) /\
+  ~ In (BShutdownRet RListenerErr) (snd (run init l)).
+Proof.
+  intros sf s.
+  assert (H := listener_error_changes_only_ret l init eq_refl).
+  change (set_err true init) with (init_e true) in H.
+  assert (Hs : sf = set_err true s) by (unfold sf, run_st; rewrite H; reflexivity).
+  split; [exact Hs|]. rewrite Hs. repeat split; try reflexivity.
+  - rewrite H. reflexivity.
+  - clear. unfold init.
+    assert (G : forall l' s0, lis_err s0 = false -> ~ In (BRet RListenerErr) (snd (run s0 l'))).
+    { induction l' as [|o l' IH]; intros s0 He; [intros []|].
+      rewrite run_cons. cbn [snd]. intros [F | F].
+      - exact (proj1 (no_listener_error_step s0 o He) F).
+      - apply (IH (fst (step s0 o))); [rewrite step_lis_err; exact He | exact F]. }
+    apply G. reflexivity.
+  - clear. unfold init.
+    assert (G : forall l' s0, lis_err s0 = false -> ~ In (BShutdownRet RListenerErr) (snd (run s0 l'))).
+    { induction l' as [|o l' IH]; intros s0 He; [intros []|].
+      rewrite run_cons. cbn [snd]. intros [F | F].
+      - exact (proj2 (no_listener_error_step s0 o He) F).
+      - apply (IH (fst (step s0 o))); [rewrite step_lis_err; exact He | exact F]. }
+    apply G. reflexivity.
+Qed.
+
+(* the two halves in the words of the property, for a reachable state whose
+   listener fails to close: Close returns the listener's error AND has ended
+   every registered connection; Shutdown with an active connection does not
+   return, and returns the listener's error when the last one has finished *)
+Theorem C20_close_despite_listener_error_lemma s :
+  reachable s -> done s = false -> lis_err s = true ->
+  let s' := fst (step s OClose) in
+  snd (step s OClose) = BRet RListenerErr /\
+  serving s' = false /\ conns s' = close_all (conns s) /\
+  Forall (fun c => c <> COpen) (conns s') /\
+  forall l o, (o = OClose \/ o = OShutdown) -> snd (step (run_st s' l) o) = BRet RServerClosed.
+Proof.
+  intros Hr Hd He s'.
+  destruct (C20_close_once_lemma s Hr Hd) as (A & B & _ & C & D & E).
+  unfold ok_ret in A. rewrite He in A. repeat split; auto.
+Qed.
+
+Theorem C20_shutdown_despite_listener_error_lemma s :
+  reachable s -> done s = false -> lis_err s = true -> (open_count s > 0)%nat ->
+  let s' := fst (step s OShutdown) in
+  snd (step s OShutdown) = BPending /\
+  forall l, has_expire l = false ->
+    let s'' := run_st s' l in
+    (sd_pending s'' = true /\ (open_count s'' > 0)%nat /\
+     ~ In (BShutdownRet RListenerErr) (snd (run s' l))) \/
+    (sd_pending s'' = false /\ open_count s'' = 0%nat /\
+     In (BShutdownRet RListenerErr) (snd (run s' l))).
+Proof.
+  intros Hr Hd He Ho s'. assert (HI := reachable_inv s Hr).
+  assert (HI' : Inv s') by (apply step_inv; exact HI).
+  destruct (shutdown_first s HI Hd) as (_ & _ & _ & _ & _ & _ & G).
+  destruct (G Ho) as [Gb Gp]. split; [exact Gb|].
+  intros l Hl s''.
+  assert (Hok : ok_ret s' = RListenerErr).
+  { unfold s'. rewrite step_ok_ret. unfold ok_ret. rewrite He. reflexivity. }
+  destruct (shutdown_waits s' l HI' Gp Hl) as [_ [(P & Q & R) | (P & Q & R)]]; rewrite Hok in R;
+    [left | right]; repeat split; auto.
+Qed.
+
+(* non-vacuity: registered, spawned and finished connections; Close and
+   Shutdown; the clean run beside the faulty one *)
+Example listener_error_example_close :
+  let l := [OAccept AConn; ORegister 0; OAccept AConn; ORegister 1; OAccept AConn; OFinish 0;
+            OClose; ORegister 2; OClose; OShutdown] in
+  snd (run (init_e true) l) =
+    [BAccepted; BNone; BAccepted; BNone; BAccepted; BNone;
+     BRet RListenerErr; BNone; BRet RServerClosed; BRet RServerClosed] /\
+  snd (run init l) =
+    [BAccepted; BNone; BAccepted; BNone; BAccepted; BNone;
+     BRet RNil; BNone; BRet RServerClosed; BRet RServerClosed] /\
+  conns (run_st (init_e true) l) = [CFinished; CClosedByServer; CClosedByServer] /\
+  serve_ret (run_st (init_e true) l) = Some RNil.
+Proof. repeat split. Qed.
+
+Example listener_error_example_shutdown :
+  let l := [OAccept AConn; ORegister 0; OAccept AConn; OShutdown; ORegister 1; OClose; OFinish 0] in
+  snd (run (init_e true) l) =
+    [BAccepted; BNone; BAccepted; BPending; BNone; BRet RServerClosed; BShutdownRet RListenerErr] /\
+  snd (run init l) =
+    [BAccepted; BNone; BAccepted; BPending; BNone; BRet RServerClosed; BShutdownRet RNil] /\
+  snd (run (init_e true) [OShutdown]) = [BRet RListenerErr] /\
+  snd (run (init_e true) [OAccept AConn; ORegister 0; OShutdown; OExpire; OFinish 0]) =
+    [BAccepted; BNone; BPending; BShutdownRet RCtxErr; BNone].
+Proof. repeat split. Qed.
+
+Example listener_error_reachable :
+  let s := run_st (init_e true) [OAccept AConn; ORegister 0] in
+  reachable s /\ done s = false /\ lis_err s = true /\ (open_count s > 0)%nat.
+Proof.
+  cbv zeta. split; [exists true, [OAccept AConn; ORegister 0]; reflexivity|].
+  repeat split. unfold open_count. simpl. lia.
+Qed.
